@@ -591,7 +591,8 @@ class StreamReader:
         while chunk_splits and chunk_splits[0] < self._cursor:
             chunk_splits.popleft()
 
-        if self._size < self._low_water and (
+        # Tested empty-first so a limit of 0 cannot leave reading paused for good.
+        if (not self._size or self._size < self._low_water) and (
             self._http_chunk_splits is None
             or len(self._http_chunk_splits) < self._low_water_chunks
         ):
